@@ -224,17 +224,8 @@ func (c *Conn) Size() int {
 // Flush writes any buffered data to the underlying io.Writer.
 // This may result in data transfer less than the block size.
 func (c *Conn) Flush() error {
-	return c.flush(nil)
-}
-
-func (c *Conn) flush(t xmlstream.Encoder) error {
-	if t == nil {
-		c.writeLock.Lock()
-		defer c.writeLock.Unlock()
-		return c.writeBuf.Flush()
-	}
-
-	c.stanzaWriter.t = t
+	c.writeLock.Lock()
+	defer c.writeLock.Unlock()
 	return c.writeBuf.Flush()
 }
 
@@ -296,13 +287,32 @@ func (c *Conn) closeNoNotify(t xmlstream.Encoder) error {
 
 	c.handler.rmStream(c.stanzaWriter.sid)
 
-	// Flush any remaining data to be written.
-	err := c.flush(t)
+	// Whatever happens to the data below, reads end here.
+	defer func() {
+		c.readLock.Lock()
+		c.recvClosed = true
+		close(c.readReady)
+		c.readLock.Unlock()
+	}()
+
+	// Send what the application has written but not flushed yet, through the
+	// encoder of the handler we are called from (the session's own send methods
+	// would wait for the serve loop, which is us). The handler's encoder must
+	// never be visible to the application's goroutine, so it is only lent out
+	// while we hold the write lock. If the application is in the middle of a
+	// Write or Flush (it holds the lock, possibly waiting for an acknowledgement
+	// that only we can deliver) its data is on its way already and waiting for
+	// the lock would deadlock the session: leave the writer alone.
+	if !c.writeLock.TryLock() {
+		return nil
+	}
+	defer c.writeLock.Unlock()
+	c.stanzaWriter.t = t
+	defer func() { c.stanzaWriter.t = nil }()
+	err := c.writeBuf.Flush()
 	if err != nil {
 		return err
 	}
-
-	close(c.readReady)
 	return c.closeFlushFunc()
 }
 
